@@ -8,11 +8,12 @@ stream.  `clauseVC op V` is the constraint `parse_single_constraint` builds once
 text have been recognised (token level; the recogniser is tied to the code by the parse stream).
 Proved: for every operator except `!=V.*`, membership equals the reference on every probe that is *regular*
 for the literal (the candidate equals the literal or has a different release — the second and third disjunct of
-the property's guard); for `==V.*` on *every* probe.  Not proved (kept as `*_full_statement`): the first
-disjunct of the guard (final-release literals, candidates of the literal's own release), `!=V.*`, and sets of
-more than two clauses.
+the property's guard); for `==V.*` on *every* probe.  For final-release literals (first disjunct of the guard) the ordered comparisons, `==` and `==V.*` are
+proved on *every* candidate, including the exclusive-comparison rules.  Not proved (kept as
+`*_full_statement`): `~=V` on candidates of V's own release, `!=V.*`, and sets of more than two clauses.
 -/
 import PoetryVerif.Proofs.VRangeSpec
+import PoetryVerif.Proofs.VRangeSpecFinal
 import PoetryVerif.Proofs.VRangeDiff
 
 set_option linter.unusedSimpArgs false
@@ -104,6 +105,54 @@ theorem wildcard_membership_eq_ref (V v : Version) (hV : V.wf = true) (hfin : V.
 
 example : ∃ V v, Version.parse "1.2" = .ok V ∧ Version.parse "1.3.dev0+l" = .ok v ∧ V.isFinal = true ∧
     Clause.contains ⟨.eqStar, V⟩ v = false := ⟨_, _, rfl, rfl, by decide, by decide⟩
+
+/-! ## final-release literals: every candidate (first disjunct of the guard) -/
+
+/-- **`<V` rejects the pre-releases of V** (and everything else of V's release), for a final release V, in the
+model of the code *and* in the reference. -/
+theorem lt_rejects_own_release (V w : Version) (hV : V.wf = true) (hfin : V.isFinal = true) (hw : w.wf = true)
+    (hr : relKey w = relKey V) :
+    (VC.single (.rng ⟨none, some V, false, false⟩)).allows w = .ok false ∧ Clause.contains ⟨.lt, V⟩ w = false := by
+  obtain ⟨h1, h2⟩ := lt_final V w hV hfin hw hr
+  exact ⟨by simp [VC.allows, RC.allows, h1], h2⟩
+
+example : ∃ V w, Version.parse "1.0" = .ok V ∧ Version.parse "1.0rc1" = .ok w ∧ V.isFinal = true ∧
+    relKey w = relKey V ∧ Version.cmp w V = .lt := ⟨_, _, rfl, rfl, by decide, by decide, by decide⟩
+
+/-- **`>V` rejects the post-releases and local builds of V** (and everything else of V's release) -/
+theorem gt_rejects_own_release (V w : Version) (hV : V.wf = true) (hfin : V.isFinal = true) (hw : w.wf = true)
+    (hr : relKey w = relKey V) :
+    (VC.single (.rng ⟨some V, none, false, false⟩)).allows w = .ok false ∧ Clause.contains ⟨.gt, V⟩ w = false := by
+  obtain ⟨h1, h2⟩ := gt_final V w hV hfin hw hr
+  exact ⟨by simp [VC.allows, RC.allows, h1], h2⟩
+
+example : ∃ V w, Version.parse "1.0" = .ok V ∧ Version.parse "1.0.post1+local" = .ok w ∧ V.isFinal = true ∧
+    relKey w = relKey V ∧ Version.cmp w V = .gt := ⟨_, _, rfl, rfl, by decide, by decide, by decide⟩
+
+/-- **membership of one clause equals the reference on *every* candidate** when the literal is a final release,
+for the ordered comparisons, `==` and `==V.*` — the first disjunct of the guard. -/
+theorem final_literal_membership_eq_ref (op : SOp) (V v : Version) (hV : V.wf = true) (hfin : V.isFinal = true)
+    (hop : op = .lt ∨ op = .le ∨ op = .gt ∨ op = .ge ∨ op = .eq ∨ op = .eqStar) (hv : v.wf = true) :
+    ∃ c, clauseVC op V = .ok c ∧ c.allows v = .ok (Clause.contains ⟨op, V⟩ v) := by
+  obtain ⟨_, _, _, f4⟩ := final_parts hfin
+  by_cases hr : relKey v = relKey V
+  · rcases hop with rfl | rfl | rfl | rfl | rfl | rfl
+    · exact ⟨_, rfl, by rw [(lt_rejects_own_release V v hV hfin hv hr).1, (lt_rejects_own_release V v hV hfin hv hr).2]⟩
+    · refine ⟨_, rfl, ?_⟩
+      simp only [VC.allows, RC.allows, Clause.contains]; congr 1
+      exact le_final V v hV hfin hv hr
+    · exact ⟨_, rfl, by rw [(gt_rejects_own_release V v hV hfin hv hr).1, (gt_rejects_own_release V v hV hfin hv hr).2]⟩
+    · refine ⟨_, rfl, ?_⟩
+      simp only [VC.allows, RC.allows, Clause.contains]; congr 1
+      exact ge_final V v hV hfin hv
+    · refine ⟨_, rfl, ?_⟩
+      simp only [VC.allows, RC.allows, Clause.contains]; congr 1
+      exact eq_final V v hV hfin hv hr
+    · exact wildcard_membership_eq_ref V v hV hfin hv
+  · rcases hop with rfl | rfl | rfl | rfl | rfl | rfl
+    all_goals first
+      | exact wildcard_membership_eq_ref V v hV hfin hv
+      | exact clause_membership_eq_ref _ V v ⟨hV, fun _ _ => f4, fun h => by cases h⟩ ⟨by simp, by simp⟩ hv (Or.inr hr)
 
 /-! ## two clauses: the comma -/
 
